@@ -202,17 +202,17 @@ Lemma dg_push_vertex : forall d v o, d_flags (push_vertex d v o) = d_flags d. Pr
 Lemma dg_set_out_edge : forall d v o, d_flags (set_out_edge d v o) = d_flags d. Proof. reflexivity. Qed.
 Lemma dg_set_adjacent_edge : forall d f o, d_flags (set_adjacent_edge d f o) = d_flags d. Proof. reflexivity. Qed.
 
-Global Hint Rewrite he_push_edge he_push_face he_push_vertex he_set_out_edge he_set_adjacent_edge
+#[local] Hint Rewrite he_push_edge he_push_face he_push_vertex he_set_out_edge he_set_adjacent_edge
   lh_upd_h lh_push_edge lh_push_face lh_push_vertex lh_set_out_edge lh_set_adjacent_edge
   dv_upd_h dv_push_edge dv_push_face dv_set_adjacent_edge dv_push_vertex dv_set_out_edge
   df_upd_h df_push_edge df_push_vertex df_set_out_edge df_push_face df_set_adjacent_edge
   dg_upd_h dg_push_edge dg_push_face dg_push_vertex dg_set_out_edge dg_set_adjacent_edge : raw.
 
-Ltac raw_simp :=
+Local Ltac raw_simp :=
   unfold set_next, set_prev, set_face, set_origin, set_half_edge;
   repeat (progress (autorewrite with raw; rewrite ?he_upd_h by (autorewrite with raw; lia))).
 
-Ltac case_if :=
+Local Ltac case_if :=
   match goal with
   | |- context [if ?a =? ?b then _ else _] => destruct (Nat.eqb_spec a b)
   | |- context [if ?a <? ?b then _ else _] => destruct (Nat.ltb_spec a b)
@@ -262,27 +262,35 @@ Proof. intros d v H. unfold v_out_edge. rewrite nth_overflow by exact H. reflexi
 Lemma hrec_eta : forall h, h = mkh (h_next h) (h_prev h) (h_face h) (h_org h).
 Proof. intros []. reflexivity. Qed.
 
-Ltac he_leaf :=
+Local Ltac he_leaf :=
   try (match goal with |- half_edge ?d ?x = _ => rewrite (hrec_eta (half_edge d x)) end);
   unfold e_next, e_prev, e_face, e_origin in *;
   cbn [h_next h_prev h_face h_org]; f_equal; try lia; try congruence.
 
-Ltac prune := try lia; try congruence.
+(* lia is exponential in the number of disequality hypotheses: arithmetic pruning ignores them
+   (contradictions with a disequality are found by congruence) *)
+Local Ltac clear_neq := repeat match goal with H : _ <> _ |- _ => clear H end.
+Local Ltac lia0 := solve [clear_neq; lia].
+Local Ltac prune := try congruence; try lia0.
 
 (* decide the condition of one `if` of the goal: by arithmetic when possible, else by cases *)
-Ltac case_if2 :=
+Local Ltac case_if2 :=
   match goal with
   | |- context [if ?a <? ?b then _ else _] =>
-      first [ rewrite (proj2 (Nat.ltb_lt a b)) by lia | rewrite (proj2 (Nat.ltb_ge a b)) by lia
+      first [ rewrite (proj2 (Nat.ltb_lt a b)) by assumption
+            | rewrite (proj2 (Nat.ltb_lt a b)) by lia0 | rewrite (proj2 (Nat.ltb_ge a b)) by lia0
             | destruct (Nat.ltb_spec a b); prune ]
   | |- context [if ?a =? ?b then _ else _] =>
-      first [ rewrite (proj2 (Nat.eqb_eq a b)) by lia | rewrite (proj2 (Nat.eqb_neq a b)) by lia
+      lazymatch a with context [if _ then _ else _] => fail | _ => idtac end;
+      first [ rewrite (Nat.eqb_refl a)
+            | rewrite (proj2 (Nat.eqb_neq a b)) by assumption
+            | rewrite (proj2 (Nat.eqb_neq a b)) by lia0 | rewrite (proj2 (Nat.eqb_eq a b)) by lia0
             | destruct (Nat.eqb_spec a b); prune ]
   end.
 
-Ltac dfacts H := destruct H as ((? & ? & ? & ?) & (? & ? & ? & ? & ?)).
+Local Ltac dfacts H := destruct H as ((? & ? & ? & ?) & (? & ? & ? & ? & ?)).
 (* `hef lem t`: the facts `lem : forall x, x < N -> ...` about the half-edge t (t < N by lia) *)
-Ltac hef lem t := let F := fresh "F" in pose proof (lem t ltac:(lia)) as F; dfacts F.
+Local Ltac hef lem t := let F := fresh "F" in pose proof (lem t ltac:(lia)) as F; dfacts F.
 
 (* the triangle clause for a half-edge of an inner face none of whose links was touched *)
 Lemma tri_frame : forall d d', DW d ->
@@ -310,6 +318,129 @@ Proof.
   intros d HW HF e He. apply DWf_iff in HW. destruct (DW_he d HW e He) as ((_ & _ & Hf & _) & _).
   unfold Raw.num_faces in HF. unfold outer. lia.
 Qed.
+
+Lemma DWf_rev_lt : forall d, DWf d -> forall e, e < length (d_hedges d) -> rev e < length (d_hedges d).
+Proof. intros d HW. apply DWf_iff in HW. exact (DW_rev_lt d HW). Qed.
+
+Lemma DWf_vout_lt : forall d, DWf d -> forall v o, v_out_edge d v = Some o -> o < length (d_hedges d).
+Proof.
+  intros d HW v o Ho. apply DWf_iff in HW.
+  destruct (Nat.ltb_spec v (length (d_verts d))) as [H|H].
+  - exact (proj1 (DW_vout d HW v o H Ho)).
+  - rewrite (v_out_edge_ge d v H) in Ho. discriminate.
+Qed.
+
+(* the preconditions of extend_line_wf / split_edge_when_all_vertices_on_line_wf in the collinear case *)
+Lemma line_vout_outer : forall d, DWf d -> Raw.num_faces d = 1 -> forall v o, v_out_edge d v = Some o -> outer d o.
+Proof. intros d HW HF v o Ho. apply (line_outer d HW HF). exact (DWf_vout_lt d HW v o Ho). Qed.
+
+Lemma line_rev_outer : forall d, DWf d -> Raw.num_faces d = 1 -> forall e, e < length (d_hedges d) -> outer d (rev e).
+Proof. intros d HW HF e He. apply (line_outer d HW HF). exact (DWf_rev_lt d HW e He). Qed.
+
+(* field-level read-after-write (no duplication of reads) *)
+Lemma nth_set_nth_gen : forall {A} i j (x : A) l dd,
+  nth j (set_nth i x l) dd = if (j =? i) && (i <? length l) then x else nth j l dd.
+Proof.
+  intros A i j x l dd. revert i j. induction l as [|h t IH]; intros i j.
+  - destruct i, j; cbn [set_nth nth length]; rewrite ?andb_false_r; reflexivity.
+  - destruct i as [|i], j as [|j]; cbn [set_nth nth length Nat.eqb andb]; try reflexivity.
+    rewrite IH. replace (S i <? S (length t)) with (i <? length t) by reflexivity. reflexivity.
+Qed.
+
+Lemma he_upd_h_gen : forall d a f x,
+  half_edge (upd_h d a f) x = if (x =? a) && (a <? length (d_hedges d)) then f (half_edge d a) else half_edge d x.
+Proof. intros. unfold half_edge at 1, upd_h. cbn [d_hedges]. apply nth_set_nth_gen. Qed.
+
+Local Ltac fld_tac :=
+  intros; unfold e_next, e_prev, e_face, e_origin, set_next, set_prev, set_face, set_origin, set_half_edge;
+  rewrite he_upd_h_gen;
+  match goal with |- context [?x =? ?a] => destruct (Nat.eqb_spec x a) as [->|] end; cbn [andb]; try reflexivity;
+  match goal with |- context [?a <? ?b] => destruct (Nat.ltb_spec a b) end;
+  cbn [h_next h_prev h_face h_org]; try reflexivity; try lia.
+
+Lemma next_set_next : forall d a v x, a < length (d_hedges d) -> e_next (set_next d a v) x = if x =? a then v else e_next d x.
+Proof. fld_tac. Qed.
+Lemma prev_set_next : forall d a v x, e_prev (set_next d a v) x = e_prev d x.
+Proof. fld_tac. Qed.
+Lemma face_set_next : forall d a v x, e_face (set_next d a v) x = e_face d x.
+Proof. fld_tac. Qed.
+Lemma origin_set_next : forall d a v x, e_origin (set_next d a v) x = e_origin d x.
+Proof. fld_tac. Qed.
+Lemma next_set_prev : forall d a v x, e_next (set_prev d a v) x = e_next d x.
+Proof. fld_tac. Qed.
+Lemma prev_set_prev : forall d a v x, a < length (d_hedges d) -> e_prev (set_prev d a v) x = if x =? a then v else e_prev d x.
+Proof. fld_tac. Qed.
+Lemma face_set_prev : forall d a v x, e_face (set_prev d a v) x = e_face d x.
+Proof. fld_tac. Qed.
+Lemma origin_set_prev : forall d a v x, e_origin (set_prev d a v) x = e_origin d x.
+Proof. fld_tac. Qed.
+Lemma next_set_face : forall d a v x, e_next (set_face d a v) x = e_next d x.
+Proof. fld_tac. Qed.
+Lemma prev_set_face : forall d a v x, e_prev (set_face d a v) x = e_prev d x.
+Proof. fld_tac. Qed.
+Lemma face_set_face : forall d a v x, a < length (d_hedges d) -> e_face (set_face d a v) x = if x =? a then v else e_face d x.
+Proof. fld_tac. Qed.
+Lemma origin_set_face : forall d a v x, e_origin (set_face d a v) x = e_origin d x.
+Proof. fld_tac. Qed.
+Lemma next_set_origin : forall d a v x, e_next (set_origin d a v) x = e_next d x.
+Proof. fld_tac. Qed.
+Lemma prev_set_origin : forall d a v x, e_prev (set_origin d a v) x = e_prev d x.
+Proof. fld_tac. Qed.
+Lemma face_set_origin : forall d a v x, e_face (set_origin d a v) x = e_face d x.
+Proof. fld_tac. Qed.
+Lemma origin_set_origin : forall d a v x, a < length (d_hedges d) -> e_origin (set_origin d a v) x = if x =? a then v else e_origin d x.
+Proof. fld_tac. Qed.
+Lemma next_set_half_edge : forall d a h x, a < length (d_hedges d) -> e_next (set_half_edge d a h) x = if x =? a then h_next h else e_next d x.
+Proof. fld_tac. Qed.
+Lemma next_push_edge : forall d h0 h1 x, e_next (push_edge d h0 h1) x =
+  if x <? length (d_hedges d) then e_next d x else if x =? length (d_hedges d) then h_next h0 else if x =? S (length (d_hedges d)) then h_next h1 else 0.
+Proof. intros. unfold e_next at 1. rewrite he_push_edge. repeat case_if; reflexivity. Qed.
+Lemma next_push_face : forall d o x, e_next (push_face d o) x = e_next d x. Proof. reflexivity. Qed.
+Lemma next_push_vertex : forall d v o x, e_next (push_vertex d v o) x = e_next d x. Proof. reflexivity. Qed.
+Lemma next_set_out_edge : forall d v o x, e_next (set_out_edge d v o) x = e_next d x. Proof. reflexivity. Qed.
+Lemma next_set_adjacent_edge : forall d f o x, e_next (set_adjacent_edge d f o) x = e_next d x. Proof. reflexivity. Qed.
+Lemma prev_set_half_edge : forall d a h x, a < length (d_hedges d) -> e_prev (set_half_edge d a h) x = if x =? a then h_prev h else e_prev d x.
+Proof. fld_tac. Qed.
+Lemma prev_push_edge : forall d h0 h1 x, e_prev (push_edge d h0 h1) x =
+  if x <? length (d_hedges d) then e_prev d x else if x =? length (d_hedges d) then h_prev h0 else if x =? S (length (d_hedges d)) then h_prev h1 else 0.
+Proof. intros. unfold e_prev at 1. rewrite he_push_edge. repeat case_if; reflexivity. Qed.
+Lemma prev_push_face : forall d o x, e_prev (push_face d o) x = e_prev d x. Proof. reflexivity. Qed.
+Lemma prev_push_vertex : forall d v o x, e_prev (push_vertex d v o) x = e_prev d x. Proof. reflexivity. Qed.
+Lemma prev_set_out_edge : forall d v o x, e_prev (set_out_edge d v o) x = e_prev d x. Proof. reflexivity. Qed.
+Lemma prev_set_adjacent_edge : forall d f o x, e_prev (set_adjacent_edge d f o) x = e_prev d x. Proof. reflexivity. Qed.
+Lemma face_set_half_edge : forall d a h x, a < length (d_hedges d) -> e_face (set_half_edge d a h) x = if x =? a then h_face h else e_face d x.
+Proof. fld_tac. Qed.
+Lemma face_push_edge : forall d h0 h1 x, e_face (push_edge d h0 h1) x =
+  if x <? length (d_hedges d) then e_face d x else if x =? length (d_hedges d) then h_face h0 else if x =? S (length (d_hedges d)) then h_face h1 else 0.
+Proof. intros. unfold e_face at 1. rewrite he_push_edge. repeat case_if; reflexivity. Qed.
+Lemma face_push_face : forall d o x, e_face (push_face d o) x = e_face d x. Proof. reflexivity. Qed.
+Lemma face_push_vertex : forall d v o x, e_face (push_vertex d v o) x = e_face d x. Proof. reflexivity. Qed.
+Lemma face_set_out_edge : forall d v o x, e_face (set_out_edge d v o) x = e_face d x. Proof. reflexivity. Qed.
+Lemma face_set_adjacent_edge : forall d f o x, e_face (set_adjacent_edge d f o) x = e_face d x. Proof. reflexivity. Qed.
+Lemma origin_set_half_edge : forall d a h x, a < length (d_hedges d) -> e_origin (set_half_edge d a h) x = if x =? a then h_org h else e_origin d x.
+Proof. fld_tac. Qed.
+Lemma origin_push_edge : forall d h0 h1 x, e_origin (push_edge d h0 h1) x =
+  if x <? length (d_hedges d) then e_origin d x else if x =? length (d_hedges d) then h_org h0 else if x =? S (length (d_hedges d)) then h_org h1 else 0.
+Proof. intros. unfold e_origin at 1. rewrite he_push_edge. repeat case_if; reflexivity. Qed.
+Lemma origin_push_face : forall d o x, e_origin (push_face d o) x = e_origin d x. Proof. reflexivity. Qed.
+Lemma origin_push_vertex : forall d v o x, e_origin (push_vertex d v o) x = e_origin d x. Proof. reflexivity. Qed.
+Lemma origin_set_out_edge : forall d v o x, e_origin (set_out_edge d v o) x = e_origin d x. Proof. reflexivity. Qed.
+Lemma origin_set_adjacent_edge : forall d f o x, e_origin (set_adjacent_edge d f o) x = e_origin d x. Proof. reflexivity. Qed.
+
+#[local] Hint Rewrite prev_set_next face_set_next origin_set_next next_set_prev face_set_prev origin_set_prev next_set_face prev_set_face origin_set_face next_set_origin prev_set_origin face_set_origin next_push_edge next_push_face next_push_vertex next_set_out_edge next_set_adjacent_edge prev_push_edge prev_push_face prev_push_vertex prev_set_out_edge prev_set_adjacent_edge face_push_edge face_push_face face_push_vertex face_set_out_edge face_set_adjacent_edge origin_push_edge origin_push_face origin_push_vertex origin_set_out_edge origin_set_adjacent_edge
+  lh_upd_h lh_push_edge lh_push_face lh_push_vertex lh_set_out_edge lh_set_adjacent_edge : fld.
+
+Lemma lh_set_next : forall d a v, length (d_hedges (set_next d a v)) = length (d_hedges d). Proof. intros. apply lh_upd_h. Qed.
+Lemma lh_set_prev : forall d a v, length (d_hedges (set_prev d a v)) = length (d_hedges d). Proof. intros. apply lh_upd_h. Qed.
+Lemma lh_set_face : forall d a v, length (d_hedges (set_face d a v)) = length (d_hedges d). Proof. intros. apply lh_upd_h. Qed.
+Lemma lh_set_origin : forall d a v, length (d_hedges (set_origin d a v)) = length (d_hedges d). Proof. intros. apply lh_upd_h. Qed.
+Lemma lh_set_half_edge : forall d a h, length (d_hedges (set_half_edge d a h)) = length (d_hedges d). Proof. intros. apply lh_upd_h. Qed.
+#[local] Hint Rewrite lh_set_next lh_set_prev lh_set_face lh_set_origin lh_set_half_edge : fld.
+
+Local Ltac fld_simp :=
+  repeat (progress (autorewrite with fld;
+                    rewrite ?next_set_next, ?prev_set_prev, ?face_set_face, ?origin_set_origin, ?next_set_half_edge, ?prev_set_half_edge, ?face_set_half_edge, ?origin_set_half_edge by (autorewrite with fld; lia))).
+
 
 (* ------------------------------------------------------------------------------------------ *)
 (* extend_line *)
@@ -509,3 +640,876 @@ Proof.
     + rewrite (el_face d vtx v o) by assumption. rewrite (proj2 (Nat.ltb_ge _ _)) by lia. reflexivity.
     + apply (el_outer_count d vtx v o); assumption.
 Qed.
+
+(* ------------------------------------------------------------------------------------------ *)
+(* split_edge_when_all_vertices_on_line *)
+
+Section SplitLine.
+Variables (d : dcel) (e : nat) (v : vdata).
+Hypothesis HW : DW d.
+Hypothesis He : e < length (d_hedges d).
+Hypothesis Hface : e_face d e = 0.
+Hypothesis Hfacer : e_face d (rev e) = 0.
+
+Notation N := (length (d_hedges d)).
+Notation V := (length (d_verts d)).
+Notation r := (rev e).
+Notation en := (e_next d e).
+Notation rp := (e_prev d (rev e)).
+Notation to_ := (e_origin d (rev e)).
+Let d' := fst (split_edge_when_all_vertices_on_line d e v).
+
+Lemma sl_he_facts : forall x, x < N ->
+  (e_next d x < N /\ e_prev d x < N /\ e_face d x < length (d_faces d) /\ e_origin d x < V) /\
+  (e_prev d (e_next d x) = x /\ e_next d (e_prev d x) = x /\
+   e_face d (e_next d x) = e_face d x /\
+   e_origin d (e_next d x) = e_origin d (rev x) /\
+   e_origin d x <> e_origin d (rev x)).
+Proof. exact (DW_he d HW). Qed.
+
+Lemma sl_ctx : e < N /\ r < N /\ en < N /\ rp < N /\ to_ < V /\ N = 2 * length (d_flags d) /\ r <> e /\ rev r = e /\
+  (en = r <-> rp = e) /\ en <> e /\ rp <> r.
+Proof.
+  pose proof He as He'.
+  pose proof (DW_rev_lt d HW e He) as Hr. pose proof (DW_even d HW) as Hev.
+  hef sl_he_facts e. hef sl_he_facts (rev e).
+  repeat split; try assumption.
+  - destruct (rev_cases e) as [k [[K1 K2]|[K1 K2]]]; lia.
+  - apply rev_involutive.
+  - congruence.
+  - congruence.
+  - congruence.
+  - congruence.
+Qed.
+
+Lemma sl_unfold : split_edge_when_all_vertices_on_line d e v =
+  (push_vertex
+    (if en =? r then
+       push_edge (set_out_edge (set_origin (set_prev (set_next d e N) r (N + 1)) r V) to_ (Some (N + 1)))
+         (mkh (N + 1) e 0 V) (mkh r N 0 to_)
+     else
+       push_edge (set_next (set_prev (set_out_edge (set_origin (set_prev (set_next d e N) r (N + 1)) r V) to_ (Some (N + 1))) en N) rp (N + 1))
+         (mkh en e 0 V) (mkh r rp 0 to_)) v (Some N),
+   ((e, N), V)).
+Proof.
+  destruct sl_ctx as (_ & _ & _ & _ & _ & Hev & _).
+  unfold split_edge_when_all_vertices_on_line. unfold e_rev.
+  rewrite Hface. rewrite Hfacer. cbn [Nat.eqb negb].
+  cbv zeta. pose proof (rev_normalized (num_undirected_edges d)) as Hrn. unfold e_rev in Hrn. rewrite Hrn.
+  unfold normalized, num_undirected_edges, num_vertices, e_to, e_rev. rewrite <- Hev.
+  destruct (en =? r); reflexivity.
+Qed.
+
+Lemma sl_len : length (d_hedges d') = N + 2.
+Proof. unfold d'. rewrite sl_unfold. cbn [fst]. destruct (en =? r); raw_simp; reflexivity. Qed.
+Lemma sl_verts : d_verts d' =
+  set_nth to_ (mkv (v_x (nth to_ (d_verts d) dflt_v)) (v_y (nth to_ (d_verts d) dflt_v)) (v_data (nth to_ (d_verts d) dflt_v)) (Some (N + 1))) (d_verts d)
+  ++ [mkv (vd_x v) (vd_y v) (vd_d v) (Some N)].
+Proof. unfold d'. rewrite sl_unfold. cbn [fst]. destruct (en =? r); raw_simp; reflexivity. Qed.
+Lemma sl_faces : d_faces d' = d_faces d.
+Proof. unfold d'. rewrite sl_unfold. cbn [fst]. destruct (en =? r); raw_simp; reflexivity. Qed.
+Lemma sl_flags : d_flags d' = d_flags d ++ [false].
+Proof. unfold d'. rewrite sl_unfold. cbn [fst]. destruct (en =? r); raw_simp; reflexivity. Qed.
+
+Ltac sl_fld :=
+  let x := fresh "x" in
+  intro x; unfold d'; rewrite sl_unfold; cbn [fst];
+  destruct sl_ctx as (He' & Hr & Hen & Hrp & Hto & Hev & Hre & Hrr & Hiso & Hene & Hrpr);
+  destruct (Nat.eqb_spec en r) as [Hi|Hi];
+  [ assert (Hrpe : rp = e) by (apply Hiso; exact Hi)
+  | assert (Hrpe : rp <> e) by (intro; apply Hi, Hiso; assumption) ]; clear Hiso;
+  fld_simp; cbn [h_next h_prev h_face h_org];
+  repeat (case_if; try lia0); try (subst x); try congruence; try reflexivity; try lia.
+
+Lemma sl_next : forall x, e_next d' x =
+  if x <? N then (if x =? e then N else if x =? rp then N + 1 else e_next d x)
+  else if x =? N then (if en =? r then N + 1 else en) else if x =? N + 1 then r else 0.
+Proof. sl_fld. Qed.
+Lemma sl_prev : forall x, e_prev d' x =
+  if x <? N then (if x =? r then N + 1 else if x =? en then N else e_prev d x)
+  else if x =? N then e else if x =? N + 1 then (if en =? r then N else rp) else 0.
+Proof. sl_fld. Qed.
+Lemma sl_face : forall x, e_face d' x = if x <? N then e_face d x else 0.
+Proof. sl_fld. Qed.
+Lemma sl_org : forall x, e_origin d' x =
+  if x <? N then (if x =? r then V else e_origin d x) else if x =? N then V else if x =? N + 1 then to_ else 0.
+Proof. sl_fld. Qed.
+
+Lemma sl_vert : forall i, nth i (d_verts d') dflt_v =
+  if i <? V then
+    (if i =? to_ then mkv (v_x (nth i (d_verts d) dflt_v)) (v_y (nth i (d_verts d) dflt_v)) (v_data (nth i (d_verts d) dflt_v)) (Some (N + 1))
+     else nth i (d_verts d) dflt_v)
+  else if i =? V then mkv (vd_x v) (vd_y v) (vd_d v) (Some N) else dflt_v.
+Proof.
+  intro i. destruct sl_ctx as (_ & _ & _ & _ & Hto & _).
+  rewrite sl_verts, nth_push1, set_nth_length, nth_set_nth by exact Hto.
+  repeat (case_if; try lia); try reflexivity; subst i; reflexivity.
+Qed.
+
+Lemma sl_vout : forall v0, v_out_edge d' v0 =
+  if v0 <? V then (if v0 =? to_ then Some (N + 1) else v_out_edge d v0) else if v0 =? V then Some N else None.
+Proof. intro v0. unfold v_out_edge at 1. rewrite sl_vert. repeat case_if; reflexivity. Qed.
+
+Lemma sl_adj : forall f, f_adjacent d' f = f_adjacent d f.
+Proof. intro f. unfold f_adjacent. rewrite sl_faces. reflexivity. Qed.
+
+Ltac sl_rw :=
+  match goal with
+  | |- context [e_next d' ?t] => lazymatch t with context [d'] => fail | _ => rewrite (sl_next t) end
+  | |- context [e_prev d' ?t] => lazymatch t with context [d'] => fail | _ => rewrite (sl_prev t) end
+  | |- context [e_face d' ?t] => lazymatch t with context [d'] => fail | _ => rewrite (sl_face t) end
+  | |- context [e_origin d' ?t] => lazymatch t with context [d'] => fail | _ => rewrite (sl_org t) end
+  end.
+
+Ltac sl_go := repeat (sl_rw; repeat case_if2); prune.
+
+Ltac sl_start :=
+  destruct sl_ctx as (He' & Hr & Hen & Hrp & Hto & Hev & Hre & Hrr & Hiso & Hene & Hrpr);
+  hef sl_he_facts e; hef sl_he_facts (rev e); hef sl_he_facts (e_next d e); hef sl_he_facts (e_prev d (rev e));
+  rewrite ?Hrr in *;
+  destruct (Nat.eqb_spec en r) as [Hi|Hi];
+  [ assert (Hrpe : rp = e) by (apply Hiso; exact Hi)
+  | assert (Hrpe : rp <> e) by (intro; apply Hi, Hiso; assumption) ]; clear Hiso.
+
+Lemma sl_links : forall x, x < N + 2 ->
+        e_prev d' (e_next d' x) = x /\ e_next d' (e_prev d' x) = x /\
+        e_face d' (e_next d' x) = e_face d' x /\
+        e_origin d' (e_next d' x) = e_origin d' (rev x) /\
+        e_origin d' x <> e_origin d' (rev x).
+Proof.
+  intros x Hx. sl_start.
+  all: pose proof (rev_involutive x) as Krr.
+  all: destruct (rev_cases x) as [k [[K1 K2]|[K1 K2]]].
+  all: destruct (Nat.ltb_spec x N) as [Hlt|Hge]; [hef sl_he_facts x | ].
+  all: try (destruct (Nat.eq_dec x r) as [Hxr|Hxr]; [rewrite Hxr in *; rewrite ?Hrr in * |]).
+  all: repeat split.
+  all: sl_go.
+Qed.
+
+Lemma sl_ranges : forall x, x < N + 2 ->
+  e_next d' x < N + 2 /\ e_prev d' x < N + 2 /\ e_face d' x < length (d_faces d) /\ e_origin d' x < V + 1.
+Proof.
+  intros x Hx. sl_start.
+  all: destruct (Nat.ltb_spec x N) as [Hlt|Hge]; [hef sl_he_facts x | ].
+  all: repeat split.
+  all: sl_go.
+Qed.
+
+Lemma sl_triangles : forall x, x < N + 2 -> e_face d' x <> 0 ->
+  e_next d' (e_next d' (e_next d' x)) = x /\
+  exists a, f_adjacent d' (e_face d' x) = Some a /\ (x = a \/ x = e_next d' a \/ x = e_next d' (e_next d' a)).
+Proof.
+  intros x Hx. destruct (Nat.ltb_spec x N) as [Hlt|Hge].
+  2:{ rewrite sl_face, (proj2 (Nat.ltb_ge x N)) by lia. congruence. }
+  rewrite (sl_face x), (proj2 (Nat.ltb_lt x N)) by lia. intro Hfx.
+  apply (tri_frame d d' HW); try assumption; [|apply sl_adj].
+  intros y Hy Hfy. sl_start.
+  all: hef sl_he_facts y.
+  all: rewrite sl_next; repeat case_if2; try reflexivity.
+Qed.
+
+Lemma sl_DW : DW d'.
+Proof.
+  pose proof HW as HW0. destruct HW0 as ((C1 & C2) & _).
+  destruct sl_ctx as (He' & Hr & Hen & Hrp & Hto & Hev & Hre & Hrr & Hiso & Hene & Hrpr).
+  unfold DW. rewrite sl_len, sl_verts, sl_faces, sl_flags, !app_length, set_nth_length. cbn [length].
+  split; [|split; [split; [|split]|split; [|split; [|split]]]].
+  - lia.
+  - intros x Hx. apply sl_ranges. exact Hx.
+  - intros v0 Hv0 a. rewrite sl_vout. repeat case_if2.
+    + intro Ha. inversion Ha. lia.
+    + intro Ha. destruct (DW_vout d HW v0 a ltac:(assumption) Ha) as (Ha' & _). lia.
+    + intro Ha. inversion Ha. lia.
+  - intros f Hf a. rewrite sl_adj. intro Ha. destruct (DW_adj d HW f a Hf Ha) as (Ha' & _). lia.
+  - exact sl_links.
+  - intros f Hf. rewrite sl_adj. destruct (f_adjacent d f) as [a|] eqn:Ha.
+    + destruct (DW_adj d HW f a Hf Ha) as (Ha' & Hfa). rewrite sl_face. repeat case_if2; prune.
+    + destruct HW as (_ & _ & _ & FP & _). specialize (FP f Hf). rewrite Ha in FP. lia.
+  - intros v0 Hv0. rewrite sl_vout. repeat case_if2.
+    + rewrite sl_org. repeat case_if2; prune.
+    + destruct (v_out_edge d v0) as [a|] eqn:Ha.
+      * destruct (DW_vout d HW v0 a ltac:(assumption) Ha) as (Ha' & Hfa). rewrite sl_org. repeat case_if2; prune.
+      * destruct HW as (_ & _ & _ & _ & VP & _). specialize (VP v0 ltac:(assumption)). rewrite Ha in VP. lia.
+    + rewrite sl_org. repeat case_if2; prune.
+  - exact sl_triangles.
+Qed.
+
+Lemma sl_outer_count : outer_count d' = outer_count d + 2.
+Proof.
+  rewrite !outer_count_cnt, sl_len. replace (N + 2) with (S (S N)) by lia. rewrite !cnt_S.
+  rewrite (cnt_ext (fun e => e_face d' e =? 0) (fun e => e_face d e =? 0) N).
+  2:{ intros x Hx. rewrite sl_face. rewrite (proj2 (Nat.ltb_lt x N)) by lia. reflexivity. }
+  rewrite !sl_face. rewrite !(proj2 (Nat.ltb_ge _ N)) by lia. cbn [Nat.eqb]. lia.
+Qed.
+
+End SplitLine.
+
+Theorem split_edge_when_all_vertices_on_line_wf : forall d e v,
+  DWf d -> e < length (d_hedges d) -> outer d e -> outer d (rev e) ->
+  let r := split_edge_when_all_vertices_on_line d e v in
+  let d' := fst r in
+  let N := length (d_hedges d) in
+  let V := length (d_verts d) in
+  DWf d' /\
+  (Raw.num_vertices d' = S (Raw.num_vertices d) /\ Raw.num_undirected_edges d' = S (Raw.num_undirected_edges d) /\
+   Raw.num_faces d' = Raw.num_faces d /\ length (d_hedges d') = N + 2) /\
+  (snd r = ((e, N), V) /\
+   (forall i, i < V -> v_x (nth i (d_verts d') dflt_v) = v_x (nth i (d_verts d) dflt_v) /\
+                       v_y (nth i (d_verts d') dflt_v) = v_y (nth i (d_verts d) dflt_v) /\
+                       v_data (nth i (d_verts d') dflt_v) = v_data (nth i (d_verts d) dflt_v)) /\
+   (forall i, i < V -> i <> e_origin d (rev e) -> nth i (d_verts d') dflt_v = nth i (d_verts d) dflt_v) /\
+   v_out_edge d' (e_origin d (rev e)) = Some (N + 1) /\
+   nth V (d_verts d') dflt_v = mkv (vd_x v) (vd_y v) (vd_d v) (Some N) /\
+   d_faces d' = d_faces d /\
+   d_flags d' = d_flags d ++ repeat false 1) /\
+  ((forall x, x < N -> e_face d' x = e_face d x) /\ e_face d' N = 0 /\ e_face d' (N + 1) = 0 /\
+   outer_count d' = outer_count d + 2).
+Proof.
+  intros d e v HW He Hf Hfr. apply DWf_iff in HW. unfold outer in Hf, Hfr.
+  cbv zeta. split; [|split; [|split]].
+  - apply DWf_iff. apply (sl_DW d e v); assumption.
+  - unfold Raw.num_vertices, Raw.num_undirected_edges, Raw.num_faces.
+    rewrite (sl_len d e v), (sl_verts d e v), (sl_faces d e v), (sl_flags d e v), !app_length, set_nth_length by assumption.
+    cbn [length]. repeat split; lia.
+  - destruct (sl_ctx d e HW He Hf Hfr) as (_ & _ & _ & _ & Hto & _).
+    split; [|split; [|split; [|split; [|split; [|split]]]]].
+    + rewrite (sl_unfold d e v) by assumption. reflexivity.
+    + intros i Hi. rewrite (sl_vert d e v) by assumption. rewrite (proj2 (Nat.ltb_lt _ _) Hi).
+      case_if; repeat split; reflexivity.
+    + intros i Hi Hne. rewrite (sl_vert d e v) by assumption. rewrite (proj2 (Nat.ltb_lt _ _) Hi).
+      rewrite (proj2 (Nat.eqb_neq _ _) Hne). reflexivity.
+    + rewrite (sl_vout d e v) by assumption. rewrite (proj2 (Nat.ltb_lt _ _) Hto), Nat.eqb_refl. reflexivity.
+    + rewrite (sl_vert d e v) by assumption. rewrite (proj2 (Nat.ltb_ge _ _)) by lia. rewrite Nat.eqb_refl. reflexivity.
+    + apply (sl_faces d e v); assumption.
+    + apply (sl_flags d e v); assumption.
+  - repeat split.
+    + intros x Hx. rewrite (sl_face d e v) by assumption. rewrite (proj2 (Nat.ltb_lt _ _)) by lia. reflexivity.
+    + rewrite (sl_face d e v) by assumption. rewrite (proj2 (Nat.ltb_ge _ _)) by lia. reflexivity.
+    + rewrite (sl_face d e v) by assumption. rewrite (proj2 (Nat.ltb_ge _ _)) by lia. reflexivity.
+    + apply (sl_outer_count d e v); assumption.
+Qed.
+
+(* ------------------------------------------------------------------------------------------ *)
+(* create_new_face_adjacent_to_edge *)
+
+Section NewFace.
+Variables (d : dcel) (e : nat) (v : vdata).
+Hypothesis HW : DW d.
+Hypothesis He : e < length (d_hedges d).
+Hypothesis Hface : e_face d e = 0.
+
+Notation N := (length (d_hedges d)).
+Notation V := (length (d_verts d)).
+Notation F := (length (d_faces d)).
+Notation en := (e_next d e).
+Notation ep := (e_prev d e).
+Notation to_ := (e_origin d (rev e)).
+Notation from := (e_origin d e).
+Let d' := fst (create_new_face_adjacent_to_edge d e v).
+
+Lemma cnf_he_facts : forall x, x < N ->
+  (e_next d x < N /\ e_prev d x < N /\ e_face d x < F /\ e_origin d x < V) /\
+  (e_prev d (e_next d x) = x /\ e_next d (e_prev d x) = x /\
+   e_face d (e_next d x) = e_face d x /\
+   e_origin d (e_next d x) = e_origin d (rev x) /\
+   e_origin d x <> e_origin d (rev x)).
+Proof. exact (DW_he d HW). Qed.
+
+Lemma cnf_ctx : e < N /\ en < N /\ ep < N /\ N = 2 * length (d_flags d) /\ en <> e /\ ep <> e /\
+  to_ < V /\ from < V /\ 1 <= F /\ e_face d en = 0 /\ e_face d ep = 0 /\ rev e < N.
+Proof.
+  pose proof He as He'. pose proof (DW_rev_lt d HW e He) as Hr. pose proof (DW_even d HW) as Hev.
+  pose proof HW as HW0. destruct HW0 as ((_ & C2) & _).
+  pose proof (cnf_he_facts e He) as Fe. dfacts Fe.
+  pose proof (cnf_he_facts (rev e) Hr) as Fr. dfacts Fr.
+  pose proof (cnf_he_facts ep ltac:(assumption)) as Fp. dfacts Fp.
+  repeat split; try assumption; try congruence.
+Qed.
+
+Lemma cnf_unfold : create_new_face_adjacent_to_edge d e v =
+  (set_next
+     (set_prev
+        (set_adjacent_edge
+           (set_half_edge
+              (push_vertex
+                 (push_face
+                    (push_edge (push_edge d (mkh (N + 2) e F to_) (mkh en (N + 3) 0 V))
+                               (mkh e N F V) (mkh (N + 1) ep 0 from))
+                    (Some e))
+                 v (Some (N + 2)))
+              e (mkh N (N + 2) F from))
+           0 (Some (N + 3)))
+        en (N + 1))
+     ep (N + 3), V).
+Proof.
+  destruct cnf_ctx as (_ & _ & _ & Hev & _).
+  unfold create_new_face_adjacent_to_edge. cbv zeta.
+  unfold normalized, not_normalized, num_undirected_edges, num_faces, num_vertices, e_to, e_rev.
+  change (h_face (half_edge d e)) with (e_face d e). rewrite Hface.
+  replace (2 * (length (d_flags d) + 1) + 1) with (N + 3) by lia.
+  replace (2 * (length (d_flags d) + 1)) with (N + 2) by lia.
+  rewrite <- Hev. reflexivity.
+Qed.
+
+Lemma cnf_len : length (d_hedges d') = N + 4.
+Proof. unfold d'. rewrite cnf_unfold. cbn [fst]. raw_simp. lia. Qed.
+Lemma cnf_verts : d_verts d' = d_verts d ++ [mkv (vd_x v) (vd_y v) (vd_d v) (Some (N + 2))].
+Proof. unfold d'. rewrite cnf_unfold. cbn [fst]. raw_simp. reflexivity. Qed.
+Lemma cnf_faces : d_faces d' = set_nth 0 (Some (N + 3)) (d_faces d ++ [Some e]).
+Proof. unfold d'. rewrite cnf_unfold. cbn [fst]. raw_simp. reflexivity. Qed.
+Lemma cnf_flags : d_flags d' = d_flags d ++ [false; false].
+Proof. unfold d'. rewrite cnf_unfold. cbn [fst]. raw_simp. rewrite <- app_assoc. reflexivity. Qed.
+
+Ltac cnf_fld :=
+  let x := fresh "x" in
+  intro x; unfold d'; rewrite cnf_unfold; cbn [fst];
+  destruct cnf_ctx as (He' & Hen & Hep & Hev & Hene & Hepe & _);
+  fld_simp; cbn [h_next h_prev h_face h_org];
+  repeat (case_if; try lia0); try (subst x); try congruence; try reflexivity; try lia.
+
+Lemma cnf_next : forall x, e_next d' x =
+  if x <? N then (if x =? e then N else if x =? ep then N + 3 else e_next d x)
+  else if x =? N then N + 2 else if x =? N + 1 then en else if x =? N + 2 then e else if x =? N + 3 then N + 1 else 0.
+Proof. cnf_fld. Qed.
+Lemma cnf_prev : forall x, e_prev d' x =
+  if x <? N then (if x =? e then N + 2 else if x =? en then N + 1 else e_prev d x)
+  else if x =? N then e else if x =? N + 1 then N + 3 else if x =? N + 2 then N else if x =? N + 3 then ep else 0.
+Proof. cnf_fld. Qed.
+Lemma cnf_face : forall x, e_face d' x =
+  if x <? N then (if x =? e then F else e_face d x)
+  else if x =? N then F else if x =? N + 1 then 0 else if x =? N + 2 then F else 0.
+Proof. cnf_fld. Qed.
+Lemma cnf_org : forall x, e_origin d' x =
+  if x <? N then e_origin d x
+  else if x =? N then to_ else if x =? N + 1 then V else if x =? N + 2 then V else if x =? N + 3 then from else 0.
+Proof. cnf_fld. Qed.
+
+Lemma cnf_vout : forall v0, v_out_edge d' v0 =
+  if v0 <? V then v_out_edge d v0 else if v0 =? V then Some (N + 2) else None.
+Proof. intro v0. unfold v_out_edge at 1. rewrite cnf_verts, nth_push1. repeat case_if; reflexivity. Qed.
+
+Lemma cnf_adj : forall f, f_adjacent d' f =
+  if f =? 0 then Some (N + 3) else if f <? F then f_adjacent d f else if f =? F then Some e else None.
+Proof.
+  intro f. destruct cnf_ctx as (_ & _ & _ & _ & _ & _ & _ & _ & HF & _).
+  unfold f_adjacent at 1. rewrite cnf_faces, nth_set_nth by (rewrite app_length; cbn [length]; lia).
+  rewrite nth_push1. repeat (case_if; try lia); reflexivity.
+Qed.
+
+Ltac cnf_rw :=
+  match goal with
+  | |- context [e_next d' ?t] => lazymatch t with context [d'] => fail | _ => rewrite (cnf_next t) end
+  | |- context [e_prev d' ?t] => lazymatch t with context [d'] => fail | _ => rewrite (cnf_prev t) end
+  | |- context [e_face d' ?t] => lazymatch t with context [d'] => fail | _ => rewrite (cnf_face t) end
+  | |- context [e_origin d' ?t] => lazymatch t with context [d'] => fail | _ => rewrite (cnf_org t) end
+  end.
+
+Ltac cnf_go := repeat (cnf_rw; repeat case_if2); prune.
+
+Ltac cnf_start :=
+  destruct cnf_ctx as (He' & Hen & Hep & Hev & Hene & Hepe & Hto & Hfrom & HF & Hfen & Hfep & Hre);
+  hef cnf_he_facts e; hef cnf_he_facts (e_next d e); hef cnf_he_facts (e_prev d e).
+
+Lemma cnf_links : forall x, x < N + 4 ->
+        e_prev d' (e_next d' x) = x /\ e_next d' (e_prev d' x) = x /\
+        e_face d' (e_next d' x) = e_face d' x /\
+        e_origin d' (e_next d' x) = e_origin d' (rev x) /\
+        e_origin d' x <> e_origin d' (rev x).
+Proof.
+  intros x Hx. cnf_start.
+  pose proof (rev_involutive x) as Krr.
+  destruct (rev_cases x) as [k [[K1 K2]|[K1 K2]]].
+  all: destruct (Nat.ltb_spec x N) as [Hlt|Hge];
+    [hef cnf_he_facts x
+    | assert (Hc : x = N \/ x = N + 1 \/ x = N + 2 \/ x = N + 3) by lia; destruct Hc as [Hc|[Hc|[Hc|Hc]]]; rewrite Hc in * ].
+  all: repeat split.
+  all: cnf_go.
+Qed.
+
+Lemma cnf_ranges : forall x, x < N + 4 ->
+  e_next d' x < N + 4 /\ e_prev d' x < N + 4 /\ e_face d' x < F + 1 /\ e_origin d' x < V + 1.
+Proof.
+  intros x Hx. cnf_start.
+  destruct (Nat.ltb_spec x N) as [Hlt|Hge];
+    [hef cnf_he_facts x
+    | assert (Hc : x = N \/ x = N + 1 \/ x = N + 2 \/ x = N + 3) by lia; destruct Hc as [Hc|[Hc|[Hc|Hc]]]; rewrite Hc in * ].
+  all: repeat split.
+  all: cnf_go.
+Qed.
+
+Lemma cnf_triangles : forall x, x < N + 4 -> e_face d' x <> 0 ->
+  e_next d' (e_next d' (e_next d' x)) = x /\
+  exists a, f_adjacent d' (e_face d' x) = Some a /\ (x = a \/ x = e_next d' a \/ x = e_next d' (e_next d' a)).
+Proof.
+  intros x Hx Hfx.
+  assert (Hc : (x < N /\ x <> e /\ e_face d x <> 0) \/ x = e \/ x = N \/ x = N + 2).
+  { revert Hfx. destruct cnf_ctx as (He' & _). rewrite cnf_face. repeat case_if2; try lia; intros; lia. }
+  destruct Hc as [(Hlt & Hxe & Hfx0)|Hc].
+  - rewrite (cnf_face x), (proj2 (Nat.ltb_lt x N)), (proj2 (Nat.eqb_neq x e)) by assumption.
+    pose proof (DW_he d HW x Hlt) as ((_ & _ & Hfr & _) & _).
+    apply (tri_frame d d' HW); try assumption.
+    + intros y Hy Hfy. cnf_start. rewrite cnf_next. repeat case_if2; try reflexivity.
+    + rewrite cnf_adj. repeat case_if2; try reflexivity.
+  - cnf_start. split; [|exists e].
+    + destruct Hc as [Hc|[Hc|Hc]]; rewrite Hc in *; cnf_go.
+    + split.
+      * destruct Hc as [Hc|[Hc|Hc]]; rewrite Hc in *; cnf_rw; repeat case_if2; rewrite cnf_adj; repeat case_if2; reflexivity.
+      * destruct Hc as [Hc|[Hc|Hc]]; [left; exact Hc|right; left|right; right]; rewrite Hc in *; cnf_go.
+Qed.
+
+Lemma cnf_DW : DW d'.
+Proof.
+  pose proof HW as HW0. destruct HW0 as ((C1 & C2) & _).
+  destruct cnf_ctx as (He' & Hen & Hep & Hev & Hene & Hepe & Hto & Hfrom & HF & Hfen & Hfep & Hre).
+  unfold DW. rewrite cnf_len, cnf_verts, cnf_faces, cnf_flags, set_nth_length, !app_length. cbn [length].
+  split; [|split; [split; [|split]|split; [|split; [|split]]]].
+  - lia.
+  - intros x Hx. apply cnf_ranges. exact Hx.
+  - intros v0 Hv0 a. rewrite cnf_vout. repeat case_if2.
+    + intro Ha. destruct (DW_vout d HW v0 a ltac:(assumption) Ha) as (Ha' & _). lia.
+    + intro Ha. inversion Ha. lia.
+  - intros f Hf a. rewrite cnf_adj. repeat case_if2.
+    + intro Ha. inversion Ha. lia.
+    + intro Ha. destruct (DW_adj d HW f a ltac:(assumption) Ha) as (Ha' & _). lia.
+    + intro Ha. inversion Ha. lia.
+  - exact cnf_links.
+  - intros f Hf. rewrite cnf_adj. repeat case_if2.
+    + cnf_go.
+    + destruct (f_adjacent d f) as [a|] eqn:Ha.
+      * destruct (DW_adj d HW f a ltac:(assumption) Ha) as (Ha' & Hfa). cnf_go.
+      * destruct HW as (_ & _ & _ & FP & _). specialize (FP f ltac:(assumption)). rewrite Ha in FP. lia.
+    + cnf_go.
+  - intros v0 Hv0. rewrite cnf_vout. repeat case_if2.
+    + destruct (v_out_edge d v0) as [a|] eqn:Ha.
+      * destruct (DW_vout d HW v0 a ltac:(assumption) Ha) as (Ha' & Hfa). cnf_go.
+      * destruct HW as (_ & _ & _ & _ & VP & _). specialize (VP v0 ltac:(assumption)). rewrite Ha in VP. lia.
+    + cnf_go.
+  - exact cnf_triangles.
+Qed.
+
+Lemma cnf_outer_count : outer_count d' = outer_count d + 1.
+Proof.
+  destruct cnf_ctx as (He' & Hen & Hep & Hev & Hene & Hepe & Hto & Hfrom & HF & _).
+  rewrite !outer_count_cnt, cnf_len. replace (N + 4) with (S (S (S (S N)))) by lia. rewrite !cnt_S.
+  rewrite (cnt_flip (fun x => e_face d x =? 0) (fun x => e_face d' x =? 0) N e He').
+  - rewrite !cnf_face. repeat case_if2. cbn [Nat.eqb]. destruct (F =? 0) eqn:EF; [apply Nat.eqb_eq in EF; lia|]. lia.
+  - intros x Hx Hne. rewrite cnf_face. repeat case_if2; try reflexivity.
+  - rewrite Hface. reflexivity.
+  - rewrite cnf_face. repeat case_if2; try (apply Nat.eqb_neq; lia).
+Qed.
+
+End NewFace.
+
+Theorem create_new_face_adjacent_to_edge_wf : forall d e v,
+  DWf d -> e < length (d_hedges d) -> outer d e ->
+  let r := create_new_face_adjacent_to_edge d e v in
+  let d' := fst r in
+  let N := length (d_hedges d) in
+  let F := length (d_faces d) in
+  DWf d' /\
+  (Raw.num_vertices d' = S (Raw.num_vertices d) /\ Raw.num_undirected_edges d' = 2 + Raw.num_undirected_edges d /\
+   Raw.num_faces d' = S (Raw.num_faces d) /\ length (d_hedges d') = N + 4) /\
+  (snd r = Raw.num_vertices d /\
+   d_verts d' = d_verts d ++ [mkv (vd_x v) (vd_y v) (vd_d v) (Some (N + 2))] /\
+   d_faces d' = set_nth 0 (Some (N + 3)) (d_faces d ++ [Some e]) /\
+   d_flags d' = d_flags d ++ repeat false 2) /\
+  ((forall x, x < N -> x <> e -> e_face d' x = e_face d x) /\
+   e_face d' e = F /\ e_face d' N = F /\ e_face d' (N + 1) = 0 /\ e_face d' (N + 2) = F /\ e_face d' (N + 3) = 0 /\
+   outer_count d' = outer_count d + 1).
+Proof.
+  intros d e v HW He Hf. apply DWf_iff in HW. unfold outer in Hf.
+  cbv zeta. split; [|split; [|split]].
+  - apply DWf_iff. apply (cnf_DW d e v); assumption.
+  - unfold Raw.num_vertices, Raw.num_undirected_edges, Raw.num_faces.
+    rewrite (cnf_len d e v), (cnf_verts d e v), (cnf_faces d e v), (cnf_flags d e v), set_nth_length, !app_length by assumption.
+    cbn [length]. repeat split; lia.
+  - repeat split.
+    + apply (cnf_verts d e v); assumption.
+    + apply (cnf_faces d e v); assumption.
+    + apply (cnf_flags d e v); assumption.
+  - repeat split.
+    + intros x Hx Hne. rewrite (cnf_face d e v) by assumption. rewrite (proj2 (Nat.ltb_lt _ _)) by lia.
+      rewrite (proj2 (Nat.eqb_neq _ _)) by assumption. reflexivity.
+    + rewrite (cnf_face d e v) by assumption. rewrite (proj2 (Nat.ltb_lt _ _)) by lia. rewrite Nat.eqb_refl. reflexivity.
+    + rewrite (cnf_face d e v) by assumption. repeat case_if2; try reflexivity.
+    + rewrite (cnf_face d e v) by assumption. repeat case_if2; try reflexivity.
+    + rewrite (cnf_face d e v) by assumption. repeat case_if2; try reflexivity.
+    + rewrite (cnf_face d e v) by assumption. repeat case_if2; try reflexivity.
+    + apply (cnf_outer_count d e v); assumption.
+Qed.
+
+(* ------------------------------------------------------------------------------------------ *)
+(* create_single_face_between_edge_and_next *)
+
+Section SingleFace.
+Variables (d : dcel) (e : nat).
+Hypothesis HW : DW d.
+Hypothesis He : e < length (d_hedges d).
+Hypothesis Hface : e_face d e = 0.
+Hypothesis Hfar : e_origin d (rev (e_next d e)) <> e_origin d e.
+
+Notation N := (length (d_hedges d)).
+Notation V := (length (d_verts d)).
+Notation F := (length (d_faces d)).
+Notation en := (e_next d e).
+Notation enn := (e_next d (e_next d e)).
+Notation ep := (e_prev d e).
+Notation to_ := (e_origin d (rev (e_next d e))).
+Notation from := (e_origin d e).
+Let d' := fst (create_single_face_between_edge_and_next d e).
+
+Lemma csf_he_facts : forall x, x < N ->
+  (e_next d x < N /\ e_prev d x < N /\ e_face d x < F /\ e_origin d x < V) /\
+  (e_prev d (e_next d x) = x /\ e_next d (e_prev d x) = x /\
+   e_face d (e_next d x) = e_face d x /\
+   e_origin d (e_next d x) = e_origin d (rev x) /\
+   e_origin d x <> e_origin d (rev x)).
+Proof. exact (DW_he d HW). Qed.
+
+Lemma csf_ctx : e < N /\ en < N /\ enn < N /\ ep < N /\ N = 2 * length (d_flags d) /\
+  en <> e /\ ep <> e /\ enn <> en /\ enn <> e /\ ep <> en /\
+  to_ < V /\ from < V /\ 1 <= F /\ e_face d en = 0 /\ e_face d enn = 0 /\ e_face d ep = 0.
+Proof.
+  pose proof He as He'. pose proof (DW_even d HW) as Hev.
+  pose proof HW as HW0. destruct HW0 as ((_ & C2) & _).
+  pose proof (csf_he_facts e He) as Fe. dfacts Fe.
+  pose proof (csf_he_facts en ltac:(assumption)) as Fn. dfacts Fn.
+  pose proof (csf_he_facts enn ltac:(assumption)) as Fnn. dfacts Fnn.
+  pose proof (csf_he_facts ep ltac:(assumption)) as Fp. dfacts Fp.
+  pose proof (DW_rev_lt d HW en ltac:(assumption)) as Hr.
+  pose proof (csf_he_facts (rev en) Hr) as Fr. dfacts Fr.
+  repeat split; try assumption; try congruence.
+Qed.
+
+Lemma csf_unfold : create_single_face_between_edge_and_next d e =
+  (push_face
+     (push_edge
+        (set_adjacent_edge
+           (set_face (set_face (set_prev (set_next (set_prev (set_next d ep (N + 1)) e N) en N) enn (N + 1)) e F) en F)
+           0 (Some (N + 1)))
+        (mkh e en F to_) (mkh enn ep 0 from))
+     (Some N), N + 1).
+Proof.
+  destruct csf_ctx as (_ & _ & _ & _ & Hev & _).
+  unfold create_single_face_between_edge_and_next. cbv zeta. cbn [fst snd].
+  rewrite rev_normalized. unfold normalized, num_undirected_edges, num_faces, e_to, e_rev.
+  rewrite <- Hev. reflexivity.
+Qed.
+
+Lemma csf_len : length (d_hedges d') = N + 2.
+Proof. unfold d'. rewrite csf_unfold. cbn [fst]. raw_simp. lia. Qed.
+Lemma csf_verts : d_verts d' = d_verts d.
+Proof. unfold d'. rewrite csf_unfold. cbn [fst]. raw_simp. reflexivity. Qed.
+Lemma csf_faces : d_faces d' = set_nth 0 (Some (N + 1)) (d_faces d) ++ [Some N].
+Proof. unfold d'. rewrite csf_unfold. cbn [fst]. raw_simp. reflexivity. Qed.
+Lemma csf_flags : d_flags d' = d_flags d ++ [false].
+Proof. unfold d'. rewrite csf_unfold. cbn [fst]. raw_simp. reflexivity. Qed.
+Lemma csf_result : snd (create_single_face_between_edge_and_next d e) = N + 1.
+Proof. rewrite csf_unfold. reflexivity. Qed.
+
+Ltac csf_fld :=
+  let x := fresh "x" in
+  intro x; unfold d'; rewrite csf_unfold; cbn [fst];
+  destruct csf_ctx as (He' & Hen & Henn & Hep & Hev & Hene & Hepe & Hnnn & Hnne & Hpn & _);
+  fld_simp; cbn [h_next h_prev h_face h_org];
+  repeat (case_if; try lia0); try (subst x); try congruence; try reflexivity; try lia.
+
+Lemma csf_next : forall x, e_next d' x =
+  if x <? N then (if x =? ep then N + 1 else if x =? en then N else e_next d x)
+  else if x =? N then e else if x =? N + 1 then enn else 0.
+Proof. csf_fld. Qed.
+Lemma csf_prev : forall x, e_prev d' x =
+  if x <? N then (if x =? e then N else if x =? enn then N + 1 else e_prev d x)
+  else if x =? N then en else if x =? N + 1 then ep else 0.
+Proof. csf_fld. Qed.
+Lemma csf_face : forall x, e_face d' x =
+  if x <? N then (if x =? e then F else if x =? en then F else e_face d x)
+  else if x =? N then F else 0.
+Proof. csf_fld. Qed.
+Lemma csf_org : forall x, e_origin d' x =
+  if x <? N then e_origin d x else if x =? N then to_ else if x =? N + 1 then from else 0.
+Proof. csf_fld. Qed.
+
+Lemma csf_vout : forall v0, v_out_edge d' v0 = v_out_edge d v0.
+Proof. intro v0. unfold v_out_edge. rewrite csf_verts. reflexivity. Qed.
+
+Lemma csf_adj : forall f, f_adjacent d' f =
+  if f <? F then (if f =? 0 then Some (N + 1) else f_adjacent d f) else if f =? F then Some N else None.
+Proof.
+  intro f. destruct csf_ctx as (_ & _ & _ & _ & _ & _ & _ & _ & _ & _ & _ & _ & HF & _).
+  unfold f_adjacent at 1. rewrite csf_faces, nth_push1, set_nth_length, nth_set_nth by lia.
+  repeat (case_if; try lia); reflexivity.
+Qed.
+
+Ltac csf_rw :=
+  match goal with
+  | |- context [e_next d' ?t] => lazymatch t with context [d'] => fail | _ => rewrite (csf_next t) end
+  | |- context [e_prev d' ?t] => lazymatch t with context [d'] => fail | _ => rewrite (csf_prev t) end
+  | |- context [e_face d' ?t] => lazymatch t with context [d'] => fail | _ => rewrite (csf_face t) end
+  | |- context [e_origin d' ?t] => lazymatch t with context [d'] => fail | _ => rewrite (csf_org t) end
+  end.
+
+Ltac csf_go := repeat (csf_rw; repeat case_if2); prune.
+
+Ltac csf_start :=
+  destruct csf_ctx as (He' & Hen & Henn & Hep & Hev & Hene & Hepe & Hnnn & Hnne & Hpn & Hto & Hfrom & HF & Hfen & Hfenn & Hfep);
+  hef csf_he_facts e; hef csf_he_facts (e_next d e); hef csf_he_facts (e_next d (e_next d e)); hef csf_he_facts (e_prev d e).
+
+Lemma csf_links : forall x, x < N + 2 ->
+        e_prev d' (e_next d' x) = x /\ e_next d' (e_prev d' x) = x /\
+        e_face d' (e_next d' x) = e_face d' x /\
+        e_origin d' (e_next d' x) = e_origin d' (rev x) /\
+        e_origin d' x <> e_origin d' (rev x).
+Proof.
+  intros x Hx. csf_start.
+  pose proof (rev_involutive x) as Krr.
+  destruct (rev_cases x) as [k [[K1 K2]|[K1 K2]]].
+  all: destruct (Nat.ltb_spec x N) as [Hlt|Hge];
+    [hef csf_he_facts x
+    | assert (Hc : x = N \/ x = N + 1) by lia; destruct Hc as [Hc|Hc]; rewrite Hc in * ].
+  all: repeat split.
+  all: csf_go.
+Qed.
+
+Lemma csf_ranges : forall x, x < N + 2 ->
+  e_next d' x < N + 2 /\ e_prev d' x < N + 2 /\ e_face d' x < F + 1 /\ e_origin d' x < V.
+Proof.
+  intros x Hx. csf_start.
+  destruct (Nat.ltb_spec x N) as [Hlt|Hge];
+    [hef csf_he_facts x
+    | assert (Hc : x = N \/ x = N + 1) by lia; destruct Hc as [Hc|Hc]; rewrite Hc in * ].
+  all: repeat split.
+  all: csf_go.
+Qed.
+
+Lemma csf_triangles : forall x, x < N + 2 -> e_face d' x <> 0 ->
+  e_next d' (e_next d' (e_next d' x)) = x /\
+  exists a, f_adjacent d' (e_face d' x) = Some a /\ (x = a \/ x = e_next d' a \/ x = e_next d' (e_next d' a)).
+Proof.
+  intros x Hx Hfx.
+  assert (Hc : (x < N /\ x <> e /\ x <> en /\ e_face d x <> 0) \/ x = N \/ x = e \/ x = en).
+  { revert Hfx. destruct csf_ctx as (He' & _). rewrite csf_face. repeat case_if2; try lia; intros; lia. }
+  destruct Hc as [(Hlt & Hxe & Hxn & Hfx0)|Hc].
+  - rewrite (csf_face x), (proj2 (Nat.ltb_lt x N)), (proj2 (Nat.eqb_neq x e)), (proj2 (Nat.eqb_neq x en)) by assumption.
+    pose proof (DW_he d HW x Hlt) as ((_ & _ & Hfr & _) & _).
+    apply (tri_frame d d' HW); try assumption.
+    + intros y Hy Hfy. csf_start. rewrite csf_next. repeat case_if2; try reflexivity.
+    + rewrite csf_adj. repeat case_if2; try reflexivity.
+  - csf_start. split; [|exists N].
+    + destruct Hc as [Hc|[Hc|Hc]]; rewrite Hc in *; csf_go.
+    + split.
+      * destruct Hc as [Hc|[Hc|Hc]]; rewrite Hc in *; csf_rw; repeat case_if2; rewrite csf_adj; repeat case_if2; reflexivity.
+      * destruct Hc as [Hc|[Hc|Hc]]; [left; exact Hc|right; left|right; right]; rewrite Hc in *; csf_go.
+Qed.
+
+Lemma csf_DW : DW d'.
+Proof.
+  pose proof HW as HW0. destruct HW0 as ((C1 & C2) & _).
+  destruct csf_ctx as (He' & Hen & Henn & Hep & Hev & Hene & Hepe & Hnnn & Hnne & Hpn & Hto & Hfrom & HF & Hfen & Hfenn & Hfep).
+  unfold DW. rewrite csf_len, csf_verts, csf_faces, csf_flags, !app_length, set_nth_length. cbn [length].
+  split; [|split; [split; [|split]|split; [|split; [|split]]]].
+  - lia.
+  - intros x Hx. apply csf_ranges. exact Hx.
+  - intros v0 Hv0 a. rewrite csf_vout.
+    intro Ha. destruct (DW_vout d HW v0 a ltac:(assumption) Ha) as (Ha' & _). lia.
+  - intros f Hf a. rewrite csf_adj. repeat case_if2.
+    + intro Ha. inversion Ha. lia.
+    + intro Ha. destruct (DW_adj d HW f a ltac:(assumption) Ha) as (Ha' & _). lia.
+    + intro Ha. inversion Ha. lia.
+  - exact csf_links.
+  - intros f Hf. rewrite csf_adj. repeat case_if2.
+    + csf_go.
+    + destruct (f_adjacent d f) as [a|] eqn:Ha.
+      * destruct (DW_adj d HW f a ltac:(assumption) Ha) as (Ha' & Hfa). csf_go.
+      * destruct HW as (_ & _ & _ & FP & _). specialize (FP f ltac:(assumption)). rewrite Ha in FP. lia.
+    + csf_go.
+  - intros v0 Hv0. rewrite csf_vout.
+    destruct (v_out_edge d v0) as [a|] eqn:Ha.
+    + destruct (DW_vout d HW v0 a ltac:(assumption) Ha) as (Ha' & Hfa). csf_go.
+    + destruct HW as (_ & _ & _ & _ & VP & _). specialize (VP v0 ltac:(assumption)). rewrite Ha in VP. lia.
+  - exact csf_triangles.
+Qed.
+
+Lemma csf_outer_count : outer_count d' + 1 = outer_count d.
+Proof.
+  destruct csf_ctx as (He' & Hen & Henn & Hep & Hev & Hene & Hepe & Hnnn & Hnne & Hpn & Hto & Hfrom & HF & Hfen & _).
+  rewrite !outer_count_cnt, csf_len. replace (N + 2) with (S (S N)) by lia. rewrite !cnt_S.
+  rewrite (cnt_flip (fun x => e_face d x =? 0) (fun x => if x =? e then false else e_face d x =? 0) N e He').
+  - rewrite (cnt_flip (fun x => if x =? e then false else e_face d x =? 0) (fun x => e_face d' x =? 0) N en Hen).
+    + rewrite !csf_face. repeat case_if2. cbn [Nat.eqb]. lia.
+    + intros x Hx Hne. rewrite csf_face. repeat case_if2; try reflexivity. symmetry. apply Nat.eqb_neq. lia.
+    + rewrite (proj2 (Nat.eqb_neq en e)) by assumption. rewrite Hfen. reflexivity.
+    + rewrite csf_face. repeat case_if2; try (apply Nat.eqb_neq; lia).
+  - intros x Hx Hne. rewrite (proj2 (Nat.eqb_neq x e)) by assumption. reflexivity.
+  - rewrite Hface. reflexivity.
+  - rewrite Nat.eqb_refl. reflexivity.
+Qed.
+
+End SingleFace.
+
+Theorem create_single_face_between_edge_and_next_wf : forall d e,
+  DWf d -> e < length (d_hedges d) -> outer d e ->
+  e_origin d (rev (e_next d e)) <> e_origin d e ->
+  let r := create_single_face_between_edge_and_next d e in
+  let d' := fst r in
+  let N := length (d_hedges d) in
+  let F := length (d_faces d) in
+  DWf d' /\
+  (Raw.num_vertices d' = Raw.num_vertices d /\ Raw.num_undirected_edges d' = S (Raw.num_undirected_edges d) /\
+   Raw.num_faces d' = S (Raw.num_faces d) /\ length (d_hedges d') = N + 2) /\
+  (snd r = N + 1 /\
+   d_verts d' = d_verts d /\
+   d_faces d' = set_nth 0 (Some (N + 1)) (d_faces d) ++ [Some N] /\
+   d_flags d' = d_flags d ++ repeat false 1) /\
+  ((forall x, x < N -> x <> e -> x <> e_next d e -> e_face d' x = e_face d x) /\
+   e_face d' e = F /\ e_face d' (e_next d e) = F /\ e_face d' N = F /\ e_face d' (N + 1) = 0 /\
+   outer_count d' + 1 = outer_count d).
+Proof.
+  intros d e HW He Hf Hfar. apply DWf_iff in HW. unfold outer in Hf.
+  cbv zeta. split; [|split; [|split]].
+  - apply DWf_iff. apply (csf_DW d e); assumption.
+  - unfold Raw.num_vertices, Raw.num_undirected_edges, Raw.num_faces.
+    rewrite (csf_len d e), (csf_verts d e), (csf_faces d e), (csf_flags d e), !app_length, set_nth_length by assumption.
+    cbn [length]. repeat split; lia.
+  - split; [|split; [|split]].
+    + apply (csf_result d e); assumption.
+    + apply (csf_verts d e); assumption.
+    + apply (csf_faces d e); assumption.
+    + apply (csf_flags d e); assumption.
+  - destruct (csf_ctx d e HW He Hf Hfar) as (_ & Hen & _ & _ & _ & Hene & _).
+    split; [|split; [|split; [|split; [|split]]]].
+    + intros x Hx Hne Hnn. rewrite (csf_face d e) by assumption. rewrite (proj2 (Nat.ltb_lt _ _)) by lia.
+      rewrite !(proj2 (Nat.eqb_neq _ _)) by assumption. reflexivity.
+    + rewrite (csf_face d e) by assumption. rewrite (proj2 (Nat.ltb_lt _ _)) by lia. rewrite Nat.eqb_refl. reflexivity.
+    + rewrite (csf_face d e) by assumption. rewrite (proj2 (Nat.ltb_lt _ _)) by lia.
+      rewrite (proj2 (Nat.eqb_neq _ _)) by assumption. rewrite Nat.eqb_refl. reflexivity.
+    + rewrite (csf_face d e) by assumption. repeat case_if2; try reflexivity.
+    + rewrite (csf_face d e) by assumption. repeat case_if2; try reflexivity.
+    + apply (csf_outer_count d e); assumption.
+Qed.
+
+(* ------------------------------------------------------------------------------------------ *)
+(* the edgeless states: dcel_new, insert_first_vertex, insert_second_vertex *)
+
+Lemma dcel_new_DW : DW dcel_new.
+Proof.
+  unfold DW, dcel_new. cbn [d_verts d_hedges d_faces d_flags length].
+  split; [lia|]. split; [split; [|split]|split; [|split; [|split]]].
+  - intros e He. lia.
+  - intros v0 Hv0. lia.
+  - intros f Hf e. assert (f = 0) by lia. subst f. unfold f_adjacent. cbn. discriminate.
+  - intros e He. lia.
+  - intros f Hf. assert (f = 0) by lia. subst f. unfold f_adjacent. cbn. split; reflexivity.
+  - intros v0 Hv0. lia.
+  - intros e He. lia.
+Qed.
+
+Lemma dcel_new_wf : DWf dcel_new.
+Proof. apply DWf_iff. exact dcel_new_DW. Qed.
+
+(* with at most one vertex there are no edges, and only the outer face *)
+Lemma DW_edgeless : forall d, DW d -> length (d_verts d) <= 1 ->
+  d_hedges d = [] /\ d_faces d = [None] /\ d_flags d = [].
+Proof.
+  intros d HW HV.
+  assert (HN : length (d_hedges d) = 0).
+  { destruct (Nat.eq_dec (length (d_hedges d)) 0) as [H|H]; [exact H|exfalso].
+    assert (H0 : 0 < length (d_hedges d)) by lia.
+    pose proof (DW_rev_lt d HW 0 H0) as Hr.
+    destruct (DW_he d HW 0 H0) as ((_ & _ & _ & O1) & (_ & _ & _ & _ & O2)).
+    destruct (DW_he d HW (rev 0) Hr) as ((_ & _ & _ & O3) & _). lia. }
+  destruct HW as ((C1 & C2) & (_ & _ & Rf) & _ & FP & _).
+  split; [|split].
+  - destruct (d_hedges d); [reflexivity|discriminate].
+  - assert (Hall : forall f, f < length (d_faces d) -> f_adjacent d f = None /\ f = 0).
+    { intros f Hf. specialize (FP f Hf). specialize (Rf f Hf).
+      destruct (f_adjacent d f) as [a|]; [specialize (Rf a eq_refl); lia|]. split; [reflexivity|apply FP]. }
+    unfold f_adjacent in Hall. destruct (d_faces d) as [|o [|o2 fs]]; cbn [length] in *.
+    + lia.
+    + destruct (Hall 0 ltac:(lia)) as (H0 & _). cbn in H0. subst o. reflexivity.
+    + destruct (Hall 1 ltac:(lia)) as (_ & H1). discriminate.
+  - destruct (d_flags d); [reflexivity|]. cbn [length] in C1. lia.
+Qed.
+
+Theorem insert_first_vertex_wf : forall d v,
+  DWf d -> Raw.num_vertices d = 0 ->
+  let r := insert_first_vertex d v in
+  let d' := fst r in
+  DWf d' /\
+  (Raw.num_vertices d' = S (Raw.num_vertices d) /\ Raw.num_undirected_edges d' = Raw.num_undirected_edges d /\
+   Raw.num_faces d' = Raw.num_faces d /\ length (d_hedges d') = length (d_hedges d)) /\
+  (snd r = Raw.num_vertices d /\
+   d_verts d' = d_verts d ++ [mkv (vd_x v) (vd_y v) (vd_d v) None] /\
+   d_hedges d' = d_hedges d /\ d_faces d' = d_faces d /\
+   d_flags d' = d_flags d ++ repeat false 0) /\
+  (d = dcel_new /\ d_hedges d' = [] /\ outer_count d' = outer_count d).
+Proof.
+  intros d v HW HV. apply DWf_iff in HW. unfold Raw.num_vertices in HV.
+  destruct (DW_edgeless d HW ltac:(lia)) as (Hh & Hf & Hg).
+  destruct d as [vs hs fs gs]. cbn [d_verts d_hedges d_faces d_flags] in *. subst hs fs gs.
+  destruct vs; [|discriminate]. clear HV HW.
+  assert (E : insert_first_vertex (mkdcel [] [] [None] []) v =
+              (mkdcel [mkv (vd_x v) (vd_y v) (vd_d v) None] [] [None] [], 0)) by reflexivity.
+  cbv zeta. rewrite E. cbn [fst snd]. split; [|split; [|split]].
+  - apply DWf_iff.
+    unfold DW. cbn [d_verts d_hedges d_faces d_flags length].
+    split; [lia|]. split; [split; [|split]|split; [|split; [|split]]].
+    + intros e He. lia.
+    + intros v0 Hv0 e. assert (v0 = 0) by lia. subst v0. unfold v_out_edge. cbn. discriminate.
+    + intros f Hf e. assert (f = 0) by lia. subst f. unfold f_adjacent. cbn. discriminate.
+    + intros e He. lia.
+    + intros f Hf. assert (f = 0) by lia. subst f. unfold f_adjacent. cbn. split; reflexivity.
+    + intros v0 Hv0. assert (v0 = 0) by lia. subst v0. unfold v_out_edge. cbn. reflexivity.
+    + intros e He. lia.
+  - repeat split.
+  - repeat split.
+  - repeat split.
+Qed.
+
+Theorem insert_second_vertex_wf : forall d v,
+  DWf d -> Raw.num_vertices d = 1 ->
+  let r := insert_second_vertex d v in
+  let d' := fst r in
+  DWf d' /\
+  (Raw.num_vertices d' = S (Raw.num_vertices d) /\ Raw.num_undirected_edges d' = S (Raw.num_undirected_edges d) /\
+   Raw.num_faces d' = Raw.num_faces d /\ length (d_hedges d') = length (d_hedges d) + 2) /\
+  (snd r = Raw.num_vertices d /\
+   (v_x (nth 0 (d_verts d') dflt_v) = v_x (nth 0 (d_verts d) dflt_v) /\
+    v_y (nth 0 (d_verts d') dflt_v) = v_y (nth 0 (d_verts d) dflt_v) /\
+    v_data (nth 0 (d_verts d') dflt_v) = v_data (nth 0 (d_verts d) dflt_v) /\
+    v_out (nth 0 (d_verts d') dflt_v) = Some 0) /\
+   nth 1 (d_verts d') dflt_v = mkv (vd_x v) (vd_y v) (vd_d v) (Some 1) /\
+   d_hedges d' = [mkh 1 1 0 0; mkh 0 0 0 1] /\ d_faces d' = [Some 0] /\
+   d_flags d' = d_flags d ++ repeat false 1) /\
+  (d_hedges d = [] /\ e_face d' 0 = 0 /\ e_face d' 1 = 0 /\ outer_count d' = outer_count d + 2).
+Proof.
+  intros d v HW HV. apply DWf_iff in HW. unfold Raw.num_vertices in HV.
+  destruct (DW_edgeless d HW ltac:(lia)) as (Hh & Hf & Hg).
+  destruct d as [vs hs fs gs]. cbn [d_verts d_hedges d_faces d_flags] in *. subst hs fs gs.
+  destruct vs as [|r0 [|r1 vs]]; try discriminate. clear HV HW.
+  assert (E : insert_second_vertex (mkdcel [r0] [] [None] []) v =
+              (mkdcel [mkv (v_x r0) (v_y r0) (v_data r0) (Some 0); mkv (vd_x v) (vd_y v) (vd_d v) (Some 1)]
+                      [mkh 1 1 0 0; mkh 0 0 0 1] [Some 0] [false], 1)) by reflexivity.
+  cbv zeta. rewrite E. cbn [fst snd]. split; [|split; [|split]].
+  - apply DWf_iff.
+    unfold DW. cbn [d_verts d_hedges d_faces d_flags length].
+    split; [lia|]. split; [split; [|split]|split; [|split; [|split]]].
+    + intros e He. destruct e as [|[|e]]; [| |lia]; cbn; lia.
+    + intros v0 Hv0 e. destruct v0 as [|[|v0]]; [| |lia]; unfold v_out_edge; cbn; intro H; inversion H; lia.
+    + intros f Hf e. assert (f = 0) by lia. subst f. unfold f_adjacent. cbn. intro H; inversion H; lia.
+    + intros e He. destruct e as [|[|e]]; [| |lia]; cbn; repeat split; try reflexivity; discriminate.
+    + intros f Hf. assert (f = 0) by lia. subst f. unfold f_adjacent. cbn. reflexivity.
+    + intros v0 Hv0. destruct v0 as [|[|v0]]; [| |lia]; unfold v_out_edge; cbn; reflexivity.
+    + intros e He. destruct e as [|[|e]]; [| |lia]; cbn; intro H; exfalso; apply H; reflexivity.
+  - repeat split.
+  - repeat split.
+  - repeat split.
+Qed.
+
+Print Assumptions dcel_new_wf.
+Print Assumptions insert_first_vertex_wf.
+Print Assumptions insert_second_vertex_wf.
+Print Assumptions extend_line_wf.
+Print Assumptions split_edge_when_all_vertices_on_line_wf.
+Print Assumptions create_new_face_adjacent_to_edge_wf.
+Print Assumptions create_single_face_between_edge_and_next_wf.
